@@ -350,7 +350,7 @@ def signature(stage, text, msgs, block):
 def javac_start(run, ex, files, quick):
     """submit one stage's files (one source tree) as the reference batch and, concurrently, a random sample file by file"""
     byf = {f["pkg"]: f for f in files}
-    nalone = 5 if quick else 24
+    nalone = 3 if quick else 24
     sample = run.rng.sample(sorted(byf), min(len(byf), nalone))
     return {"files": files, "byf": byf, "t0": time.time(), "nalone": nalone, "batch": ex.submit(compile_batch, files),
             "alone": {p: ex.submit(compile_batch, [byf[p]]) for p in sample}}
@@ -488,7 +488,7 @@ def check(run):
     chunk = 600
     files, reqs_all, metas_all = [], [], []
     for a in range(0, len(specs), chunk):
-        results = run_budgeted(run, specs[a:a + chunk], 75) if quick else pipeline.run_many(specs[a:a + chunk])
+        results = run_budgeted(run, specs[a:a + chunk], 65) if quick else pipeline.run_many(specs[a:a + chunk])
         fs, reqs, metas = text_stream(run, st, results)
         files += fs
         if a == 0:
@@ -500,7 +500,6 @@ def check(run):
     run.cov["texts_equal"] = st["equal"]
     run.cov["texts_unmodelled"] = len(st["unmodelled"])
     run.cov["unmodelled_samples"] = st["unmodelled"][:3]
-    real_history(run, st, 3 if quick else 6)
     # javac: the original and the erased translation of a program carry the same package (as in hephaestus, where the
     # mutated program replaces the original under its package), so the two stages are compiled in separate source trees;
     # batches of at most 400 files per invocation for the reference verdicts (hephaestus' own batches are smaller)
@@ -508,15 +507,21 @@ def check(run):
     for stage in ("gen", "erase"):
         fs = [f for f in files if f["stage"] == stage]
         groups += [(fs[a:a + 400], quick or a > 0) for a in range(0, len(fs), 400)]
-    with ThreadPoolExecutor(max_workers=4) as ex:
-        if quick:       # the two stages side by side
+    t1 = time.time()
+    with ThreadPoolExecutor(max_workers=8 if quick else 4) as ex:
+        if quick:       # the two stages side by side; the in-process re-use stream runs while javac works
             jobs = [(javac_start(run, ex, fs, q), q) for fs, q in groups if fs]
+            real_history(run, st, 3)
+            run.log("real translator re-use stream done (%.0fs)" % (time.time() - t1))
             for job, q in jobs:
                 javac_finish(run, st, job, q)
         else:
+            real_history(run, st, 6)
             for fs, q in groups:
                 if fs:
                     javac_finish(run, st, javac_start(run, ex, fs, q), q)
+    run.log("javac: %d files judged in batches, %d compiled alone as well (%.0fs)" % (
+        len(files), run.cov.get("batch_comparisons", {}).get("alone", {}).get("files", 0), time.time() - t1))
     run.cov["javac_rejections"] = len(st["rejections"])
     run.cov["batch_verdict_changes"] = len(st["batch_diffs"])
     run.cov["correspondence_differs"] = len(st["diffs"])
